@@ -6,6 +6,7 @@ here is exactly representable on it.
 """
 
 import math
+import os
 
 import numpy as np
 from hypothesis import strategies as st
@@ -162,6 +163,45 @@ def polar_forms(x, form):
             (px * vy - py * vx) / rho2, (vz * rho2 - pz * (px * vx + py * vy)) / (r * r * rho)]
 
 
+_inertial = {}
+_count = [0]
+
+
+def inertial_frame(body):
+    """A non-rotating frame centred on the body (EME2000 axes) in which a target orbit can be given."""
+    if body == "Earth":
+        return "EME2000"
+    if body not in _inertial:
+        from beyond.frames import frames, orient
+
+        _inertial[body] = frames.Frame(f"VF{body}Inertial", orient.EME2000, center_of(body))
+    return _inertial[body]
+
+
+def propagator_from_target(case, ori):
+    """ClohessyWiltshire.from_orbit(target): the target is a circular orbit of radius case['sma'] about the
+    case's body, given by its cartesian state (from the oracle's perifocal construction)."""
+    from beyond.orbits import Orbit
+    from beyond.propagators.cw import ClohessyWiltshire
+
+    sp = case["sp"]
+    body = body_of(case)
+    rv = tb.kep2cart(case["sma"], 0.0, sp.get("inc", 0.9), sp.get("raan", 1.0), 0.0, sp.get("u0", 2.0), mu(body))
+    epoch = epoch_date(case["k0"], sp.get("base", 0))
+    target = Orbit(rv.tolist(), epoch, "cartesian", inertial_frame(body), "Kepler")
+    _count[0] += 1
+    prop = ClohessyWiltshire.from_orbit(target, orientation=ori, name=f"VFcw{os.getpid() % 1000}x{_count[0]}")
+    if prop.frame.orientation != ori:
+        raise Violation("from-orbit-orientation", f"from_orbit(target, orientation='{ori}') gives a propagator in "
+                        f"{prop.frame.name}")
+    if prop.frame.center.body is not center_of(body).body:
+        raise Violation("from-orbit-body", f"from_orbit(target about {body}) gives a Hill frame about "
+                        f"{prop.frame.center.body!r}")
+    if abs(float(prop.sma) / case["sma"] - 1) > 1e-12:
+        raise Violation("from-orbit-sma", f"from_orbit: sma {float(prop.sma)!r} for a circular target of radius {case['sma']!r}")
+    return prop
+
+
 def make_orbit(case, ori=None, x0=None, mans=None, prop=None):
     from beyond.frames.frames import HillFrame
     from beyond.orbits import Orbit
@@ -169,6 +209,8 @@ def make_orbit(case, ori=None, x0=None, mans=None, prop=None):
 
     sp = case.get("sp") or {}
     epoch = epoch_date(case["k0"], sp.get("base", 0))
+    if prop is None and sp.get("via") == "from_orbit":
+        prop = propagator_from_target(case, ori or case["ori"])
     if prop is None:
         frame = HillFrame(orientation=ori or case["ori"], center=center_of(body_of(case)))
         sma = int(case["sma"]) if sp.get("sma_int") and case["sma"] == int(case["sma"]) else case["sma"]
@@ -465,7 +507,8 @@ def spell_case(draw, shard, tier):
     """The cases of hill_solution under other spellings of the same physical input: time-scale labels of
     the epoch / maneuver / propagation dates, relative state and delta-v as tuple, arrays, integers (the
     caller's arrays being re-used afterwards), the orbit held in spherical or cylindrical form, cloned by
-    copy(), copy.copy, copy.deepcopy or pickle, the frame given by its name, an integer semi major-axis, other calendar days, spans
+    copy(), copy.copy, copy.deepcopy or pickle, the frame given by its name, the propagator obtained by ClohessyWiltshire.from_orbit(target orbit,
+    orientation) about the case's body, an integer semi major-axis, other calendar days, spans
     and burns of several days, results overwritten in place by the caller and asked again."""
     d = D(draw)
     sma, ori, k0, body = draw_target(d)
@@ -500,6 +543,9 @@ def spell_case(draw, shard, tier):
               scribble_args=d.coin(), form=d.pick("cartesian", "cartesian", "spherical", "cylindrical"),
               clone=d.pick("none", "none", "copy", "pickle", "copy.copy", "deepcopy"), frame_name=d.int(0, 3) == 0, sma_int=d.coin(),
               scribble=d.coin())
+    if d.int(0, 7) == 0:
+        # the propagator obtained from a target orbit (each call registers a frame: kept to ~1 case in 8)
+        sp.update(via="from_orbit", inc=d.u(0.05, 3.0), raan=d.u(0.0, 6.2), u0=d.u(0.0, 6.2))
     return dict(sma=sma, ori=ori, k0=k0, x0=x0, mans=mans, qs=qs, body=body, api=d.pick("date", "date", "delta", "iter"),
                 sp=sp, long=long)
 
@@ -556,6 +602,7 @@ def check_spellings(case):
                                 f"request gives {again.tolist()} instead of {v.tolist()}")
     cls = [f"epoch:{sp['lab_epoch']}", "x0:" + sp["x0_as"], "dv:" + sp["dv_as"], "form:" + sp["form"], "clone:" + sp["clone"],
            "long" if case["long"] else "short"] + (["frame-by-name"] if sp["frame_name"] else []) + \
+          (["via:from_orbit"] if sp.get("via") else []) + \
           (["scribble"] if sp["scribble"] else [])
     return dict(nt=True, cls=classes(case, cls), ratio=worst)
 
